@@ -6,12 +6,14 @@ CHECK = {
                  "followed by every operation once on the re-used descriptor (differential against a fresh descriptor), "
                  "(c) bounded-exhaustive boundary families on buffers whose size straddles 2^8, 2^16 (exact heap blocks; thorough also 2^7, 2^15) "
                  "and 2^31, 2^32 (lazily backed 4 GiB mapping, states installed with byte_buffer_set), "
+                 "(c') operations that really move 2^32 octets and more (clear, add, consume, consume_at_most with a count of 2^32 + r) on buffers, sources and destinations of real memory: a 4 MiB memory file tiled over the address range, compared through a single mapping of the file, "
                  "(d) every operation of the alphabet called with its buffer argument given as an expression with a side effect (cursor function over three buffers of the same geometry), "
                  "(e) add / consume / consume_at_most whose source / destination lies in the same object as the buffer's memory, directly in front of or behind it (gap 0 or 1 octet, never inside it)",
     "rule": "explicit-state search: every operation of the alphabet applied to every reachable (size,used,offset,image) state; a case is one transition; "
             "non-trivial = everything but reset of an already empty buffer; far-operand cases: one add/consume/consume_at_most with a far length on a reached state; "
             "set-up cases: one set/use/space call on a descriptor with the stated history (an accepted one is followed by every operation of the alphabet, each from a copy of the resulting descriptor); "
             "medium/big cases: byte_buffer_set to a boundary state, then one operation; "
+            "huge cases: byte_buffer_set over a tiled range of 2^32 + r octets, then one operation that moves all of them; "
             "expr cases: every (used, offset) of sizes 1..3 (thorough 1..5) x every operation of the alphabet, the buffer under test compared with the model and the two buffers behind the cursor compared with their state before; "
             "adjacent cases: every (used, offset) of the small sizes x add / consume / consume_at_most with every length the operation has to serve (at-most: also one more than is unread) x operand in front / behind x gap 0 / 1",
     "assumptions": ["octet alphabet {00,a1,b2}; buffer sizes up to the stated bound (small-scope), plus the boundary families named in the bound (values next to 2^7, 2^8, 2^15, 2^16, 2^31, 2^32, 2^63, 2^64)",
@@ -21,7 +23,9 @@ CHECK = {
                     "the destination of a consume / consume_at_most always has the length the call states (an implementation may pad or clear it within that length): an exact-size heap block up to 2^20 octets, beyond that 16 GiB of address space of which the first 256 KiB are accessible -- a call that touches the rest is abandoned as undecided (outcome far-undecided, run marked non-exhaustive, after 16 such calls of one kind the remaining ones are not made), never reported; consume lengths above 2^34 (2^48, 2^63, 2^64-k) cannot be backed by memory and are not generated: a wrap of offset+length that needs such a length is outside the space",
                     "'fails without change' (add, consume, at-most on an empty buffer) is read as: negative return, all four descriptor fields and the whole memory image unchanged; after an accepted operation only the filled region [0,used) is compared (the statement leaves free room open, except for clear)",
                     "'set-up refuses ...' (the statement does not say 'without change' here): negative return, both memory blocks untouched, and the descriptor either as it was or a consistent descriptor that describes no memory (data == NULL or size == 0, with offset <= used <= size); a refused set-up that leaves a changed descriptor still describing memory is a violation",
-                    "the statement promises no range of buffer sizes: a set-up with valid arguments that is refused at sizes >= 2^31-1 (large-scope family only) is a cap (outcome big-unsupported, run marked non-exhaustive), what it leaves behind is checked like any refused set-up",
+                    "the statement promises no range of buffer sizes: a set-up with valid arguments that is refused at sizes >= 2^31-1 (large-scope family), or at any size above the small scope (255 and more) in the set-up matrix of that family, is a cap (outcome big-unsupported, run marked non-exhaustive), what it leaves behind is checked like any refused set-up",
+                    "likewise in the medium-scope family (sizes 127..65537): a refused valid set-up there is a cap (outcome medium-unsupported, run marked non-exhaustive; an implementation with a 16-bit size type or a size policy), checked like any refused set-up (descriptor unchanged or describing no memory, memory untouched); the medium-* outcome classes are therefore not required. Refusals of valid set-ups at the small-scope sizes (<= 8: search, re-use, expression and adjacent families) stay violations",
+                    "huge family: positions of the range that are congruent mod 4 MiB share their octet, so only operations whose result does not depend on the order of the octet moves are run (clear; add into the empty buffer from a source with a pattern of period 4 MiB; consume / at-most of everything unread) and the comparison is per residue; rewind is not run at this scale; a count narrowed to 32 bits moves r < 4 MiB octets and leaves the rest of the pre-filled file; three tiled ranges that cannot be mapped, or a refused set-up, are caps (huge-unmapped / huge-unsupported)",
                     "byte_buffer_avail / byte_buffer_rest do not occur in the statement: their results are logged in replays, not demanded",
                     "expr family: the operations are functions of the public header, so a call whose buffer argument has a side effect operates on the one buffer the expression yields once; only the buffer argument is varied",
                     "adjacent family: operands inside the buffer's own memory (repeating its newest octets, consuming into its free room) are not generated -- an implementation may refuse operands that alias the buffer",
@@ -35,7 +39,6 @@ CHECK = {
         "require_outcomes": {"any": ["rewind-moves", "add-refused", "consume-refused", "atmost-short", "set-refused",
                                      "far-add-refused", "far-consume-refused", "far-atmost-short", "far-atmost-empty",
                                      "reuse-set-refused", "reuse-set-ok", "dirty-set-refused", "dirty-set-ok",
-                                     "medium-add-ok", "medium-add-refused", "medium-consume-ok", "medium-consume-refused", "medium-rewind",
                                      "expr-argument", "adjacent-add", "adjacent-consume", "adjacent-atmost"]},
     }],
 }
